@@ -1115,7 +1115,14 @@ pub fn peer_receiver(seed: u64, family: &str, variant: u8) -> Scenario {
     } else {
         gen_writes(&mut r, total, opts.tx_init(), mss)
     };
+    // generic family, "late tail" shape: everything written so far ends in a size probe that is
+    // still un-acknowledged (slow ACKs) when the application writes a little more and closes
+    let late_tail = variant == 0 && r.chance(0.12);
+    if late_tail {
+        w = vec![WOp::Write { n: r.range(1, 4) * mss as u64 + r.range(mss as u64 + 1, 2 * mss as u64), chunk: 65536 }, WOp::Sleep(r.range(1, 60)), WOp::Write { n: r.log_range(1, 300), chunk: 65536 }];
+    }
     match r.below(4) {
+        _ if late_tail => w.push(WOp::Drop),
         0 => {
             w.push(WOp::Flush);
             w.push(WOp::Shutdown);
@@ -1149,6 +1156,11 @@ pub fn peer_receiver(seed: u64, family: &str, variant: u8) -> Scenario {
         auto.sack = true;
         auto.rx_model = None;
     }
+    if late_tail {
+        auto.ack = AckMode::Delayed(*r.pick(&[40u64, 100, 200]));
+        auto.rx_model = None;
+    }
+    let wnd = if late_tail { 1 << 20 } else { wnd };
     let mut steps = vec![];
     let n_steps = if probe_tail { 0 } else { r.range(0, 25) };
     for _ in 0..n_steps {
@@ -1192,6 +1204,18 @@ pub fn peer_receiver(seed: u64, family: &str, variant: u8) -> Scenario {
             }
             8 => steps.push(PeerStep::Ack { ack_delta: 0, wnd: Some(r.log_range(1, 1 << 20) as u32), sack: SackSpec::Auto }),
             9 if lossy_allowed && r.chance(0.2) => steps.push(PeerStep::Vanish),
+            10 if lossy_allowed => {
+                // reordering without loss: the newest one or two packets are reported
+                // selectively (fewer than three: no loss signal) while the cumulative ACK stays one
+                // packet behind, then everything is acknowledged
+                let k = r.range(2, 3) as i32;
+                steps.push(PeerStep::SetAuto(AutoCfg { ack: AckMode::Manual, ..auto.clone() }));
+                steps.push(PeerStep::Wait(r.range(1, 60)));
+                steps.push(PeerStep::Ack { ack_delta: -k, wnd: None, sack: SackSpec::Bits(vec![true; (k - 1) as usize]) });
+                steps.push(PeerStep::Wait(r.range(1, 30)));
+                steps.push(PeerStep::SetAuto(auto.clone()));
+                steps.push(PeerStep::Ack { ack_delta: 0, wnd: None, sack: SackSpec::Auto });
+            }
             _ => {}
         }
     }
@@ -1207,7 +1231,10 @@ pub fn peer_receiver(seed: u64, family: &str, variant: u8) -> Scenario {
         start_ms: 0,
         synack_delay_ms: r.range(0, 30),
     };
-    let side = Side { w, r: vec![ROp::Read { n: u64::MAX, buf: 4096, vectored: false }] };
+    // (late tail: the application lets go of both halves - that, not shutdown, is what closes a
+    // connection whose ring is not empty)
+    let reader = if late_tail && r.chance(0.7) { vec![ROp::Drop] } else { vec![ROp::Read { n: u64::MAX, buf: 4096, vectored: false }] };
+    let side = Side { w, r: reader };
     let (connects, accepts) = match role {
         PeerRole::Connector => (vec![], vec![AcceptScript { node: 0, at_ms: 0, cancel_after_ms: None, side }]),
         PeerRole::Acceptor => (vec![ConnectScript { node: 0, to: 1, at_ms: 0, cancel_after_ms: None, side }], vec![]),
